@@ -87,6 +87,42 @@ pub fn print_digests(tier: &str) {
     }
 }
 
+/// replay of a "hash-order" finding: the same script under several memo hasher seeds
+pub fn replay_hash_order(v: &serde_json::Value) -> i32 {
+    let cfg = Cfg::from_json(&v["config"]);
+    let script = lexer::unhex(v["script_hex"].as_str().unwrap_or(""));
+    let n = v["hash_seeds"].as_u64().unwrap_or(8);
+    let mut outs: BTreeMap<Vec<u8>, Vec<u64>> = BTreeMap::new();
+    for hs in 0..n {
+        verif::set_memo_hash_seed(hs);
+        let mut g = cfg.build();
+        let r = g.generate_from_arbitrary(&script).unwrap_or_default();
+        outs.entry(r).or_default().push(hs);
+    }
+    verif::set_memo_hash_seed(0);
+    println!("config: {}", cfg.describe());
+    for (o, seeds) in &outs {
+        println!("memo hash seeds {:?} -> {} bytes {}", &seeds[..seeds.len().min(8)], o.len(), lexer::hex(&o[..o.len().min(48)]));
+    }
+    (outs.len() > 1) as i32
+}
+
+/// replay of a "pair" finding: configuration a then b in a fresh process vs b alone
+pub fn replay_pair(v: &serde_json::Value) -> i32 {
+    let argv: Vec<String> = v["argv"].as_array().map(|a| a.iter().map(|x| x.as_str().unwrap_or("").to_string()).collect()).unwrap_or_default();
+    if argv.len() < 3 {
+        return 2;
+    }
+    let exe = std::env::current_exe().unwrap();
+    let run = |a: &str, b: &str| Command::new(&exe).arg("--pair").arg(a).arg(b).output().map(|o| String::from_utf8_lossy(&o.stdout).to_string()).unwrap_or_default();
+    let with = run(&argv[1], &argv[2]);
+    let alone = run("none", &argv[2]);
+    println!("first: {}\nthen:  {}", v["first"], v["then"]);
+    println!("digests of 'then' after 'first': {}", with.replace('\n', " "));
+    println!("digests of 'then' alone:         {}", alone.replace('\n', " "));
+    (with != alone) as i32
+}
+
 fn perms_seen_all(k: usize, seen: &BTreeSet<Vec<usize>>) -> bool {
     let f: usize = (1..=k).product();
     seen.len() == f
